@@ -277,6 +277,14 @@ func registry() []entry {
 		return fb(smp(s).Quantile(s.in.Q)) + fb(wsmp(s).Quantile(s.in.Q)) + fb(stats.Sample{Xs: s.xa, Sorted: true}.Quantile(s.in.Q)) + fb(smp(s).Quantile(0)) + fb(smp(s).Quantile(1))
 	})
 	add("Sample.IQR", func(s *shared) string { return fb(smp(s).IQR()) + fb(wsmp(s).IQR()) })
+	// a weighted sample that says it is sorted: nothing needs copying before use, so nothing
+	// protects the caller's values and weights from an in-place step
+	wssmp := func(s *shared) stats.Sample { return stats.Sample{Xs: s.xa, Weights: s.w, Sorted: true} }
+	add("Sample weighted+Sorted", func(s *shared) string {
+		a, b := wssmp(s).Bounds()
+		return fb(wssmp(s).Quantile(s.in.Q)) + fb(wssmp(s).Quantile(0.3)) + fb(wssmp(s).IQR()) + fb(wssmp(s).Mean()) + fb(wssmp(s).Sum()) +
+			fb(wssmp(s).Weight()) + fb(a) + fb(b) + fb(wssmp(s).Quantile(s.in.Q))
+	})
 	add("Sample.Copy", func(s *shared) string {
 		c := wsmp(s).Copy()
 		return fs(c.Xs) + fs(c.Weights)
@@ -755,7 +763,8 @@ func pregistry() []pentry {
 		return fmt.Sprintf("%+v%+v", stats.QuantileCI(len(s.x1), p, 0.9), stats.QuantileCI(len(s.x1)+40, p, 0.9))
 	})
 	add("Sample.Quantile(q)", func(s *shared, p float64) string {
-		return fb(stats.Sample{Xs: s.x1}.Quantile(p)) + fb(stats.Sample{Xs: s.x1, Weights: s.w}.Quantile(p)) + fb(stats.Sample{Xs: s.xa, Sorted: true}.Quantile(p))
+		return fb(stats.Sample{Xs: s.x1}.Quantile(p)) + fb(stats.Sample{Xs: s.x1, Weights: s.w}.Quantile(p)) + fb(stats.Sample{Xs: s.xa, Sorted: true}.Quantile(p)) +
+			fb(stats.Sample{Xs: s.xa, Weights: s.w, Sorted: true}.Quantile(p))
 	})
 	add("distributions(x)", func(s *shared, p float64) string {
 		t, n := stats.TDist{V: 4.5}, stats.NormalDist{Mu: 1, Sigma: 2}
